@@ -209,3 +209,38 @@ def check_restart_replaces(ctx, P, start, variant, rule="F9"):
     n_own = len(sched.get(variant, []))
     ctx.ob(rule + ".F9.single-successor", "%s|%s" % (fn.name, variant), n_own == 1 and len(adds) == 1, fn.loc(),
            "handler constructs exactly one successor Command::%s and schedules once (found %d/%d)" % (variant, n_own, len(adds)))
+
+
+def check_every_stop_path_purges(ctx, P, rule, event_adt, stopped_variant, rerun_variant, mapfield, exempt=("Zeroconf::cleanup",), floor=1):
+    """every function that ends a search on its own — it emits <Event>::SearchStopped AND removes the searcher from its
+    map — also purges the pending reruns of that search, so nothing runs after SearchStopped.  (The stop handler is
+    one such path; the resolver-timeout branch of the run loop is another.)  `cleanup` is exempt: the daemon exits
+    right after it and executes nothing else (C14a)."""
+    n = 0
+    for em in emissions(P):
+        f = em.fn
+        if f.in_tests() or stopped_variant not in em.names() or not any(a.endswith(event_adt) for (a, v) in em.variants if v == stopped_variant):
+            continue
+        if any(f.name.endswith(x) for x in exempt):
+            continue
+        # does this function remove the searcher?
+        removes = [b for b, t in f.calls() if method(cname(t)) in ("remove", "remove_entry") and recv_is_field(P, f, b, t, mapfield, "Zeroconf")]
+        if not removes:
+            continue
+        n += 1
+        info = purge_info(P, f)
+        # only purges that belong to this stop: inside the innermost loop around the emission (the per-search
+        # iteration), or anywhere when the emission is not in a loop
+        loops = f.loops()
+        heads = [h for h, body in loops.items() if em.bb in body]
+        scope = loops[min(heads, key=lambda h: len(loops[h]))] if heads else None
+        vs = set()
+        for (pb, v) in info["removes"]:
+            if scope is None or pb in scope:
+                vs |= v
+        ok = rerun_variant in vs or "*" in vs
+        ctx.ob(rule + ".F9.every-stop-path-purges", "%s|%s" % (f.name, rerun_variant), ok, f.loc(em.bb),
+               ("%s ends a search (SearchStopped + %s.remove) and purges pending Command::%s reruns" % (f.short, mapfield, rerun_variant)) if ok else
+               ("%s sends SearchStopped and removes the searcher from %s but leaves its pending Command::%s rerun in the queue: when that rerun "
+                "comes due it sends SearchStarted after SearchStopped, queries again and re-schedules itself" % (f.short, mapfield, rerun_variant)))
+    ctx.floor(rule + ".F9.every-stop-path-purges", n, floor, "functions that end a %s search on their own" % rerun_variant)
